@@ -26,7 +26,7 @@ DECLS == TLCEval(<<
    vals |-> <<<<{1, 2}, {1, 2}, {1}>>, <<{1, 2}, {1, 2}, {0, 1}>>>>],
   \* 2: the same table twice (consecutive): (a,b) and (b,a) -> T1; one helper column (batch of two)
   [looking |-> <<S(0, AB), S(0, BA)>>, looked |-> S(1, AB), extra |-> <<>>, deg |-> 3,
-   vals |-> <<<<{1, 2}, {1, 2}, {1}>>, <<{1, 2}, {1, 2}, {0, 1, 2}>>>>],
+   vals |-> <<<<{1, 2}, {1}, {1}>>, <<{1, 2}, {1, 2}, {0, 1, 2}>>>>],
   \* 3: extra looking tuple (1,1)
   [looking |-> <<S(0, AB)>>, looked |-> S(1, AB), extra |-> <<<<1, 1>>>>, deg |-> 3,
    vals |-> <<<<{1, 2}, {1}, {0, 1}>>, <<{1, 2}, {1}, {0, 1}>>>>],
@@ -35,7 +35,7 @@ DECLS == TLCEval(<<
    vals |-> <<<<{1, 2}, {0}, {0, 1}>>, <<{1, 2}, {0}, {1}>>, <<{1, 2}, {0}, {0, 1}>>>>],
   \* 5: as 2 with constraint degree 2 (two helper columns of one side each)
   [looking |-> <<S(0, AB), S(0, BA)>>, looked |-> S(1, AB), extra |-> <<>>, deg |-> 2,
-   vals |-> <<<<{1, 2}, {1, 2}, {1}>>, <<{1, 2}, {1, 2}, {0, 1, 2}>>>>]
+   vals |-> <<<<{1, 2}, {1}, {1}>>, <<{1, 2}, {1, 2}, {0, 1, 2}>>>>]
 >>)
 
 RowsOf(v) == LET U == v[1] \cup v[2] \cup v[3] IN {row \in [1..3 -> U] : \A c \in 1..3 : row[c] \in v[c]}
